@@ -1,3 +1,4 @@
 import FtModel.Basic
 import FtModel.Coiter
 import FtModel.Eq
+import FtModel.Point
